@@ -82,6 +82,12 @@ type threadReplay struct {
 }
 
 func cancelRun(c *harness.C, backend string, withheld int, r *explore.Recorder) (trace []string, finished bool, err error) {
+	return cancelRunX(c, backend, withheld, false, r)
+}
+
+// cancelRunX with dup: every message of party 2 is delivered twice (a retransmitting peer) while
+// party 3's message is withheld: a duplicate must not stand in for what is missing.
+func cancelRunX(c *harness.C, backend string, withheld int, dup bool, r *explore.Recorder) (trace []string, finished bool, err error) {
 	rec := c.Bubble(func() {
 		msgs := honestMsgs(backend)
 		x := newKG(backend, 1)
@@ -107,6 +113,9 @@ func cancelRun(c *harness.C, backend string, withheld int, r *explore.Recorder) 
 					}
 					if i < len(msgs[from]) {
 						x.OnMsg(msgs[from][i].msg, from, msgs[from][i].bcast)
+						if dup && from == 2 {
+							x.OnMsg(msgs[from][i].msg, from, msgs[from][i].bcast)
+						}
 					}
 				}
 			}
@@ -139,10 +148,15 @@ func threadCases(c *harness.C) []harness.Case {
 	}
 	var cases []harness.Case
 	for _, be := range []string{"bls", "ps"} {
-		for wh := 0; wh < 3; wh++ {
+		for whd := 0; whd < 6; whd++ {
 			for k := 0; k < threadShards; k++ {
-				be, wh, k := be, wh, k
+				be, k := be, k
+				dup := whd >= 3
+				wh := whd % 3
 				name := fmt.Sprintf("thread-cancel/%s/withhold%d", be, wh)
+				if dup {
+					name += "/peer2-retransmits"
+				}
 				cases = append(cases, harness.Case{ID: fmt.Sprintf("%s/shard%d", name, k), Run: func(c *harness.C) {
 					var tr []string
 					var fin bool
@@ -151,7 +165,7 @@ func threadCases(c *harness.C) []harness.Case {
 					reported := false
 					e.Run = func(r *explore.Recorder) {
 						c.Exec(fmt.Sprintf("[%s] %v", name, r.Prefix))
-						tr, fin, kerr = cancelRun(c, be, wh, r)
+						tr, fin, kerr = cancelRunX(c, be, wh, dup, r)
 					}
 					e.Visit = func(r *explore.Recorder) {
 						c.Add("executions", 1)
@@ -177,7 +191,7 @@ func threadCases(c *harness.C) []harness.Case {
 						return
 					}
 					root := &explore.Recorder{}
-					cancelRun(c, be, wh, root)
+					cancelRunX(c, be, wh, dup, root)
 					if k == 0 {
 						e.Explore(nil, nil, -1)
 					}
